@@ -326,18 +326,21 @@ impl MinCostFlowSolver {
                     * self.config.costs.dead_head_trip as Cost
                     + idle_time_cost;
 
+                // a maintenance slot may receive (send) all its vehicles from (to) one and the
+                // same predecessor (successor), e.g., the only depot
+                let connection_upper_bound = maximal_formation_count_for_vehicle_type
+                    .max(maintenance_slots.get(&node_id).copied().unwrap_or(0) as UpperBound)
+                    .max(maintenance_slots.get(&pred).copied().unwrap_or(0) as UpperBound);
+
                 cost_overflow_checker = cost_overflow_checker
-                    .checked_add(
-                        cost.checked_mul(maximal_formation_count_for_vehicle_type)
-                            .unwrap(),
-                    )
+                    .checked_add(cost.checked_mul(connection_upper_bound).unwrap())
                     .expect("overflow in cost_overflow_checker");
 
                 edges.insert(
                     builder.add_edge(pred_right_rsnode, *left_rsnode),
                     EdgeLabel {
                         lower_bound: 0,
-                        upper_bound: maximal_formation_count_for_vehicle_type,
+                        upper_bound: connection_upper_bound,
                         cost,
                     },
                 );
